@@ -25,7 +25,8 @@ HARD = [r'\64 iv', r'd\69v', r'\000064iv', '\\64\niv', r'.\31 a', r'#\#x', r'[\7
         'a:not(b):is(c):where(d):matches(e)', ':matches(a,b)', ':has(a):has(b)', 'a.b.c#d#e[f][g=h]', '*', '*.a', 'a *', ':is(*)', ':not(*|*)',
         ':nth-child(1 of *)', 'a:nth-child(2):nth-last-child(2)', ':lang(en)', ':lang("en", de-DE)', ":lang( 'x y' /**/,/**/ \\64 e )", ':LANG("")',
         ':-soup-contains(x)', ':-soup-contains-own("x y", z)', ':-SOUP-CONTAINS( a , b )', ':dir(ltr)', ':DIR( RTL )', 'p:dir(rtl):lang(en):-soup-contains(x) > a',
-        ':not(:lang(en), :dir(ltr))', ':-soup-contains("x\\\ny")', ':lang("*-ch", en-\\55 S)', ':lang(en /* de */, fr)', ':checked', ':link', ':any-link', ':disabled', ':enabled', ':required', ':optional', ':read-write', ':read-only', ':default',
+        ':not(:lang(en), :dir(ltr))', ':-soup-contains("x\\\ny")', ':lang("*-ch", en-\\55 S)', ':lang(en /* de */, fr)', ':scope:root', '&:root', ':empty:root:scope', ':root:scope:empty', '&:empty', ':defined:root', ':root:defined:scope', ':dir(ltr):root',
+        ':root:dir(rtl)', ':checked', ':link', ':any-link', ':disabled', ':enabled', ':required', ':optional', ':read-write', ':read-only', ':default',
         ':indeterminate', ':placeholder-shown', ':in-range', ':out-of-range', ':defined', 'input:CHECKED:not(:disabled) > a', ':is(:link, :default)',
         ':has(> :read-only)', ':nth-child(2 of :enabled)', r':\63hecked', ':is(a  , b)', 'a  > b', 'p /* all */* > b /* end */', 'p[t/**/*="a"] ~ #i /**/']
 NS = {'ns': 'urn:n'}
